@@ -32,7 +32,7 @@ def snapshot_adt(p):
 
 
 def run(ctx):
-    configs = ["default"] if ctx.tier == "quick" else ["default", "full", "single:console_appender"]
+    configs = ["default", "full"] if ctx.tier == "quick" else ["default", "full", "single:console_appender"]
     for cfg in configs:
         run_cfg(ctx, ctx.prog(cfg), cfg)
     if ctx.tier == "thorough":
@@ -186,6 +186,10 @@ def run_cfg(ctx, p, cfg):
         okm = bool(mods) and all(any(x[0] == "call" and x[1] == "std::fs::metadata" for x in walk(c.arg(0))) or g.path != RUN_ONCE for g, c in mods)
         r.require(okm, "timestamp-of-that-lookup", fn=(mods[0][0] if mods else None), detail="modified() is taken from the metadata just looked up")
 
+    with ctx.rule("A9", "a file that is not one whole document does not parse", cfg) as r:
+        # "an unparsable file keeps the last good configuration" rests on the parser rejecting it
+        from rules import c14
+        c14.rule_whole_document_parsers(r, p)
     with ctx.rule("A8", "the text compared against is the text last read", cfg) as r:
         # "unchanged" is decided by comparing the file's text with the remembered one: the remembered text has to be replaced by
         # what was just read whenever a new configuration is applied, or a later edit back to an older text is taken for "no change"
